@@ -984,6 +984,32 @@ theorem runEdge_route_optimal (c : Config α) {ok : Nat → Bool} {cst hv : Nat 
   · intro es hes
     rw [wrap_cost]; exact hmin es hes
 
+/-- `runEdge_route_optimal` with the premises a concrete configuration can meet (`UniformOn`; `WF`
+holds of every configuration with consistent adjacency) -/
+theorem runEdge_route_optimal_on (c : Config α) (hadj : c.AdjConsistent)
+    {S : Option Nat → List α → Prop} {ok : Nat → Bool} {cst hv : Nat → α}
+    (U : UniformOn c.inst S ok cst hv) (source tgt : Nat) (sched : List Nat) (r : AlgResult α)
+    (e1 e2 : EdgeRec α) (h1 : c.edges[source]? = some e1) (h2 : c.edges[tgt]? = some e2)
+    (hne : source ≠ tgt) (hnadj : e1.dst ≠ e2.src)
+    (hadm : Admissible c.inst ok cst hv e2.src)
+    (h : c.runEdge source (some tgt) sched = .ok r) :
+    ∃ (route inner : List (Branch α)) (last : Branch α), r.routes = [route] ∧
+      route = originBranch c source e1 :: inner ++ [destBranch tgt e2 last.state] ∧
+      Walk c.inst ok e1.dst (inner.map (·.edge)) e2.src ∧
+      (route.map (fun b => b.access + b.traversal)).sum = cost cst (inner.map (·.edge)) ∧
+      ∀ es, Walk c.inst ok e1.dst es e2.src →
+        (route.map (fun b => b.access + b.traversal)).sum ≤ cost cst es := by
+  obtain ⟨res, inner, last, hres, hinner, _, _, _, hroutes⟩ :=
+    runEdge_nonadjacent c source tgt sched r e1 e2 h1 h2 hne hnadj h
+  obtain ⟨inner', d, hinner', _, hw, hsum, _, _, hmin⟩ :=
+    route_optimal_on (c.inst_wf hadj) U (fun h => hnadj h.symm) hadm hres
+  rw [hinner] at hinner'
+  cases hinner'
+  refine ⟨_, inner, last, hroutes, rfl, hw, ?_, ?_⟩
+  · rw [wrap_cost]; exact hsum
+  · intro es hes
+    rw [wrap_cost]; exact hmin es hes
+
 /-- a successful `run_a_star` towards a target other than the source extends to a successful
 `run_vertex_oriented` with the same final state (the backtrack cannot fail) -/
 theorem runVertexOriented_of_runAStar {I : Inst α} (hI : WF I) {source t : Nat} (hts : t ≠ source)
